@@ -452,6 +452,7 @@ type countFilter struct {
 	allEmpt bool
 	dos     int
 	last    time.Duration
+	lastAt  time.Time
 }
 
 func (f *countFilter) Do(cTx, sRx, sTx, cRx time.Time) time.Duration {
@@ -459,6 +460,7 @@ func (f *countFilter) Do(cTx, sRx, sTx, cRx time.Time) time.Duration {
 	f.mu.Lock()
 	f.dos++
 	f.last = off
+	f.lastAt = time.Now()
 	f.mu.Unlock()
 	return off
 }
@@ -632,15 +634,17 @@ func (w *world) runRound(c *tcase) *roundRec {
 
 	timeout := 3 * time.Second
 	if anyDrop {
-		timeout = 150 * time.Millisecond
+		timeout = 300 * time.Millisecond
 	}
 	var off time.Duration
 	var err error
 	kts0 := w.errh.kts.Load()
 	panicked := false
+	var deadline time.Time
 	sr := withReader(w.craft(c), func() {
 		ctx, cancel := context.WithTimeout(context.Background(), timeout)
 		defer cancel()
+		deadline, _ = ctx.Deadline()
 		defer func() {
 			if r := recover(); r != nil {
 				panicked = true
@@ -715,6 +719,11 @@ func (w *world) runRound(c *tcase) *roundRec {
 			if !rec.Mnear[i] {
 				rec.Judged = false
 			}
+			// a value produced while the context was ending may or may not have
+			// been received by the collecting loop: such a round is not judged
+			if f.lastAt.After(deadline.Add(-40 * time.Millisecond)) {
+				rec.Judged = false
+			}
 		}
 		if len(rec.Probed[i]) > 0 {
 			if f.dos > 0 {
@@ -749,6 +758,28 @@ func (w *world) runRound(c *tcase) *roundRec {
 		rec.RawOK = err == nil && !panicked && off == x+(y-x)/2
 	}
 	return rec
+}
+
+// starved: a round with a short deadline in which fewer clients than possible
+// got a request onto the wire (a measurement goroutine scheduled only after
+// the deadline on a loaded machine looks like that); such a round is repeated.
+func (w *world) starved(c *tcase, rec *roundRec) bool {
+	short := false
+	for _, s := range c.Script {
+		if s.Fail == 2 {
+			short = true
+		}
+	}
+	if !short {
+		return false
+	}
+	n := 0
+	for _, a := range rec.Asg {
+		if a != 0 {
+			n++
+		}
+	}
+	return n < min(c.Nc, len(c.Offered))
 }
 
 func nn(s []int) []int {
@@ -848,7 +879,7 @@ func TestC15(t *testing.T) {
 			var rec *roundRec
 			for attempt := 0; attempt < 3; attempt++ {
 				rec = w.runRound(c)
-				if rec.Judged && rec.RetNear && rec.Stray == 0 {
+				if rec.Judged && rec.RetNear && rec.Stray == 0 && !w.starved(c, rec) {
 					break
 				}
 				retried++
